@@ -22,7 +22,7 @@ ASSUMPTIONS = ["nvmon.ref exact reference model", "only removable knots are remo
                "conditioning bound 1e-13*(range/distance to nearest knot)^copies when that exceeds it (A5.8 divides by alpha per removed copy)"]
 FLOORS = {'quick': {'removal': 300, 'probe-lib': 3000, 'probe-defn': 3000, 'structure': 300, 'restored': 120},
           'thorough': {'removal': 4000, 'probe-lib': 40000, 'restored': 1500}}
-MANDATORY_TAGS = ['pdim1', 'pdim2', 'pdim3', 'rational', 'multi-dir-one-call', 'partial-removal', 'full-removal', 'after-refine', 'interleaved',
+MANDATORY_TAGS = ['large', 'pdim1', 'pdim2', 'pdim3', 'rational', 'multi-dir-one-call', 'partial-removal', 'full-removal', 'after-refine', 'interleaved',
                   'via:method', 'via:operations', 'dir:u', 'dir:v', 'dir:w', 'on-knot', 'in-span', 'caller-value-removal', 'big-coordinates', 'tuple-knot-vector', 'unclamped', 'on-domain-end', 'short-knot-range', 'multiplicity-p+1-removal']
 TECHNIQUE = ("runtime monitoring: shadow-model oracle (exact reference of the original definition + remembered original control "
              "points) evaluated after every removal step of a seeded insert/refine/remove history")
@@ -45,6 +45,8 @@ def gen(rng, tier, shard, nshards):
             # an un-normalised knot vector on a very short (or long) range: tolerances of the library must be relative to that range
             a_ = rng.choice([0.0, 5.0, -2.0 ** -21])
             kw.update(normalize=False, lohi=(a_, a_ + rng.choice([2.0 ** -20, 2.0 ** -17, 2.0 ** 12])))
+        if 'lohi' not in kw and 'kvcls' not in kw and not (shard == 0 and i < len(forced)) and rng.random() < 0.06:
+            kw['large'] = True         # degree up to 10 / 40 control points; one long, high-degree direction for surfaces and volumes
         unclamped = 'kvcls' not in kw and rng.random() < 0.25
         sd = G.rand_shape(rng, pd, clamped_only=not unclamped, **(dict(kw, kvcls=rng.choice(['unclamped', 'unclamped_rep'])) if unclamped else kw))
         yield {'kind': 'history', 'sd': sd, 'seed': rng.randrange(1 << 30),
@@ -268,6 +270,8 @@ def check(case, ctx):
         ctx.tag('unclamped')
     if any(abs(kv[-1] - kv[0]) < 1e-4 for kv in sd['kvs']):
         ctx.tag('short-knot-range')
+    if sd.get('large'):
+        ctx.tag('large')
     ctx.tag('pdim%d' % pdim, 'rational' if sd['rational'] else 'nonrational',
             'normalized' if sd['normalize_kv'] else 'unnormalized')
     mode = case['mode']
